@@ -87,7 +87,10 @@ let emit kind text =
   let b = if kind = "api" then api_buf else fid_buf in
   if Buffer.length b < 4_000_000 then (Buffer.add_string b text; Buffer.add_char b '\n')
 
+let int_of_z_sign = function Z0 -> 0 | Zpos _ -> 1 | Zneg _ -> -1
+
 let () =
+  let big_cases = ref 0 in
   let cases = ref 0 and ops = ref 0 and nontrivial = Hashtbl.create 4096 in
   let by_impl = Hashtbl.create 8 in
   let bump tbl k n = Hashtbl.replace tbl k (n + try Hashtbl.find tbl k with Not_found -> 0) in
@@ -116,6 +119,81 @@ let () =
                    emit "fidelity" (Printf.sprintf "MISMATCH line=%d op=%d kind=fidelity what=maxDegree(%d): implementation (float64) %s, exact model %d"
                      !lineno !opno n d m)
                | _ -> ()) body
+         end else if String.length hw.(0) > 0 && hw.(0).[String.length hw.(0) - 1] = '*' then begin
+           (* acceptor-only case (large heaps, bulk operations): every output of the implementation is
+              judged by the extracted bag-specification acceptor; the exact model is not run.
+              <i> IB a cnt mult mod vbase  =  Insert(((a+j)*mult) mod `mod`, vbase+a+j) for j < cnt
+              <i> DB cnt -> r1;r2;...      =  cnt Deletes *)
+           let cmp = cmp_of hw.(1) in
+           let sizes = List.map int_of_string (List.tl (List.tl (Array.to_list hw))) in
+           bump by_impl ("big_" ^ hw.(0) ^ "_" ^ hw.(1)) 1;
+           let sp = ref (Some (List.map (fun _ -> Some []) sizes)) in
+           let held = ref 0 in
+           let opno = ref 0 in
+           List.iter (fun opres ->
+               incr opno; incr ops;
+               if !sp <> None then begin
+                 let op, res = match split_on opres "->" with
+                   | [a; b] -> (trim a, trim b) | [a] -> (trim a, "?") | _ -> (opres, "?") in
+                 let toks = Array.of_list (List.filter (fun s -> s <> "") (split_on op " ")) in
+                 let i = int_of_string toks.(0) in
+                 let k = toks.(1) in
+                 let arg j = int_of_string toks.(j) in
+                 let mism kind what =
+                   emit kind (Printf.sprintf "MISMATCH line=%d op=%d kind=%s what=%s %s %s: %s" !lineno !opno kind hw.(0) hw.(1)
+                                (if String.length op > 60 then String.sub op 0 60 else op) what) in
+                 let feed kk a r =
+                   (* one operation with the implementation's result r *)
+                   match !sp with
+                   | None -> ()
+                   | Some p ->
+                     if r = "skip" then ()
+                     else if r = "?" then
+                       (match a with
+                        | Insert _ | DeleteAll -> (match check_pstep cmp eqv eqe p (nat_of_int i, a) ONone with Some p' -> sp := Some p' | None -> sp := None)
+                        | Delete -> sp := None          (* unknown answer: the bag can no longer be followed *)
+                        | _ -> ())
+                     else begin
+                       let io = parse_out kk r in
+                       (match a, io with Insert _, ONone -> incr held | Delete, OEntry (Some _) -> (incr deletes; incr big_deletes; decr held) | _ -> ());
+                       if !held > !max_size then max_size := !held;
+                       match check_pstep cmp eqv eqe p (nat_of_int i, a) io with
+                       | Some p' -> sp := Some p'
+                       | None ->
+                         sp := None;
+                         mism "api" (Printf.sprintf "implementation answered %s with %d entries held, which the bag specification does not allow (%s)"
+                                       r !held
+                                       (match a, List.nth_opt p i with
+                                        | (Delete | Peek), Some (Some b) when b <> [] ->
+                                          let best = List.fold_left (fun m (k2, _) -> if int_of_z_sign (cmp k2 m) < 0 then k2 else m) (fst (List.hd b)) b in
+                                          Printf.sprintf "the extremal held key is %d" best
+                                        | _ -> "see the history"))
+                     end in
+                 match k with
+                 | "DUMP" -> ()
+                 | "V" -> incr dumps; if res = "f" then mism "fidelity" "the package's verify() answers false (proved true in every reachable state)"
+                 | "IB" ->
+                   let st = arg 2 and cnt = arg 3 and mult = arg 4 and md = arg 5 and vb = arg 6 in
+                   if res = "PANIC" || res = "HANG" then feed "I" (Insert (0, 0)) res
+                   else for j = 0 to cnt - 1 do
+                       feed "I" (Insert (((st + j) * mult) mod md, vb + st + j)) (if res = "?" then "?" else "-")
+                     done
+                 | "DB" ->
+                   let cnt = arg 2 in
+                   if res = "?" then feed "D" Delete "?"
+                   else begin
+                     let rs = split_on res ";" in
+                     if List.length rs <> cnt then feed "D" Delete "PANIC"
+                     else List.iter (fun r -> feed "D" Delete (trim r)) rs
+                   end
+                 | _ ->
+                   let a = match k with
+                     | "I" -> Insert (arg 2, arg 3) | "D" -> Delete | "P" -> Peek | "X" -> DeleteAll
+                     | "S" -> Size | "E" -> IsEmpty | "CK" -> ContainsKey (arg 2) | "CV" -> ContainsValue (arg 2)
+                     | _ -> failwith ("bad op in acceptor-only case " ^ op) in
+                   feed k a res
+               end) body;
+           incr big_cases
          end else begin
            let impl = match hw.(0) with "BIN" -> Binary | "BNM" -> Binomial | _ -> Fibonacci in
            let cmp = cmp_of hw.(1) in
@@ -233,5 +311,6 @@ let () =
   Printf.printf "STAT max_heap_size=%d\nSTAT max_pool=%d\nSTAT max_ops_per_case=%d\n" !max_size !max_pool !max_ops;
   Printf.printf "STAT binary_grow_resizes=%d\nSTAT binary_shrink_resizes=%d\nSTAT merges_of_nonempty_heaps=%d\n" !grow !shrink !merges;
   Printf.printf "STAT deletes=%d\nSTAT deletes_on_3_or_more=%d\nSTAT answers_with_tied_extremal_key=%d\n" !deletes !big_deletes !ties;
+  Printf.printf "STAT acceptor_only_large_cases=%d\n" !big_cases;
   Printf.printf "STAT layout_and_verify_comparisons=%d\nSTAT maxdegree_points=%d\nSTAT out_of_scope_ops_ignored=%d\n" !dumps !maxdeg !skipped;
   Hashtbl.iter (fun k v -> Printf.printf "STAT cases_%s=%d\n" k v) by_impl
